@@ -10,6 +10,11 @@
     node inside the view (clamped resolution) answers -- node kinds alternate with
     the nesting level, so a leak one level up is visible.  Binding: the model's
     resolution predicts the answer; a mismatch that is still confined is drift.
+    A child view obtained with the spelling (Filespace(sp)) is written through, removed
+    through and READ through: whatever it shows must be the content of a node under the
+    view's root.  Every second shard instantiates the model's names so that some START WITH
+    the name of the disk root directory (root / rootx / rootf): confinement by string
+    prefix instead of by path segments lets such a sibling through.
 (T) random deeper stacks / longer spellings: where a token written through the
     stack landed is recorded and validated by Trace_Views.tla."""
 import os, json
